@@ -10,7 +10,7 @@ import numpy as np
 from vlib import gen
 from vlib.fitcase import Member
 from vlib.models import Model
-from vlib.monitor import Tol, fmt_exc
+from vlib.monitor import Tol, fmt_exc, numerical_failure
 from vlib.ref import constraint_cov, pd_info
 
 PROPERTY = "C05"
@@ -216,7 +216,10 @@ def run_case(ctx, case):
     ctx.op("do_fit")
     try:
         fit.do_fit()
-    except Exception:
+    except Exception as e:
+        if numerical_failure(e):
+            ctx.discard("do_fit-failed-numerically")
+            return nontrivial
         ctx.violation(None, "do_fit.no-exception", {"traceback": fmt_exc()})
         return nontrivial
     # "to within the minimizer's tolerance": MIGRAD stops at EDM <= 2e-5 (4.5e-3 sigma); scipy's BFGS with numerical gradients
